@@ -1,6 +1,8 @@
 #!/bin/sh
 # usage: tools/check.sh <property id> <quick|thorough>
-cd /verif || exit 3
-tools/setup.sh >/dev/null 2>&1 || { echo "setup failed"; tools/setup.sh; exit 3; }
-export PYTHONPATH=${VF_REPO:+$VF_REPO:}/verif
+here=$(cd "$(dirname "$0")/.." && pwd)
+cd "$here" || exit 3
+/verif/tools/setup.sh >/dev/null 2>&1 || { echo "setup failed"; /verif/tools/setup.sh; exit 3; }
+export VF_ROOT="$here"
+export PYTHONPATH=${VF_REPO:+$VF_REPO:}$here
 exec /verif/.venv/bin/python -m vf.run "$1" "${2:-quick}"
